@@ -43,7 +43,7 @@ if [ "$SUITE" != "--no-suite" ]; then
     "ioc ") SCOPE="-p fibre_ioc" ;;
   esac
   echo "   scope: $SCOPE (touched: $TOUCHED)"
-  timeout 3000 cargo nextest run $SCOPE --no-fail-fast --test-threads 8 --offline > "$D/suite_patched.log" 2>&1
+  timeout 3000 cargo nextest run $SCOPE --no-fail-fast --test-threads 8 --retries 2 --offline > "$D/suite_patched.log" 2>&1
   grep -E "^\s+Summary|^\s+(FAIL|TIMEOUT|SIGABRT|SIGSEGV)" "$D/suite_patched.log" | sort | uniq -c | sort -rn | head -20
 fi
 echo "RESULT clean_demo=$RC1 patched_demo=$RC2"
